@@ -394,6 +394,7 @@ def run_impl(sc, early_at=()):
     sim = StackSim(sc, loop=VLoop(rev_ties=sc["rev"], early_at=early_at)) if early_at else StackSim(sc)
     try:
         completed = sim.run()
+        run_impl.last_armed_ticks = set(sim.loop.armed_ticks)
         return canon_trace(sim.trace), completed, (sim.final(), list(sim.ghost))
     finally:
         sim.close()
